@@ -72,6 +72,9 @@ Definition tied (fid : N) (s : string) : string :=
                                (filter (fun p => ceq (fst p) "c" || ceq (fst p) "s" || ceq (fst p) "d") l))
       | Err _ => ""
       end
+  | 22 => match to_float_form s with
+          | ReadAsIs t => "F" ++ t | ReadFortran t => "X" ++ t | NotRead => "N"
+          end
   | _ => "?"
   end%N.
 
